@@ -391,7 +391,9 @@ func c01(c *Ctx) {
 		ok, why := ix.DominatedUp(s.F, s.N, notStopped, 0)
 		c.Check(ok, "R5", "sdk/trace|"+s.F.Name+"|send on queue guarded by !stopped.Load()", ix.at(s),
 			"every call chain to this send passes the false edge of stopped.Load()", "a span can be enqueued after Shutdown: "+why)
+		dominatedUpExempt = flushMarkerCall
 		ok, why = ix.DominatedUp(s.F, s.N, sampled, 0)
+		dominatedUpExempt = nil
 		c.Check(ok, "R5", "sdk/trace|"+s.F.Name+"|send on queue guarded by IsSampled()", ix.at(s),
 			"send dominated by the true edge of SpanContext().IsSampled()", "an unsampled span can be enqueued: "+why)
 	}
@@ -1168,4 +1170,16 @@ func ruleBspStoppedSync(c *Ctx, ix *PkgIndex, rule string) {
 		c.Check(bad == "", rule, "sdk/trace|(*batchSpanProcessor).OnEnd|a span is queued only while the stopped flag is false", at(ix.M, onEnd.Pos()), itoa(n)+" enqueue call(s) behind !stopped.Load()",
 			"OnEnd queues spans without consulting the flag Shutdown sets: "+bad)
 	}
+}
+
+// flushMarkerCall: the call hands over a forceFlushSpan marker, not a span: the marker's SpanContext is sampled by construction and
+// it is never batched (C01.R8), so the "only sampled spans are queued" obligation does not apply to that call site.
+func flushMarkerCall(ix *PkgIndex, call *ast.CallExpr) bool {
+	info := ix.Pkg.TypesInfo
+	for _, a := range call.Args {
+		if nn := namedOf(info.TypeOf(a)); nn != nil && nn.Obj().Name() == "forceFlushSpan" && nn.Obj().Pkg() == ix.Pkg.Types {
+			return true
+		}
+	}
+	return false
 }
